@@ -3,7 +3,8 @@
 (* C12.  State = the sequence of layout operations applied to a fixed      *)
 (* logical movie; every step applies one more operation that is applicable *)
 (* to the current box tree:                                                *)
-(*   free / unknown box inserted at any position of a container that       *)
+(*   free / unknown box (with a 32- or a 64-bit size header) inserted at   *)
+(*   any position of a container that                                      *)
 (*   iterates over its children (top level included, after ftyp),          *)
 (*   swap of two children of a container whose child order is free         *)
 (*   (at top level: media data before / after the movie header),           *)
@@ -58,9 +59,9 @@ OpsAt(root, p) ==
       iter == top \/ n.t \in IterTypes
       lo == IF top THEN 2 ELSE 1                          \* ftyp stays first
   IN (IF iter /\ "free" \in OpKinds
-      THEN {[op |-> "free", path |-> p, at |-> i, len |-> ln] : i \in lo..(Len(n.kids) + 1), ln \in {0, 5}} ELSE {})
+      THEN {[op |-> "free", path |-> p, at |-> i, len |-> ln, big |-> bg] : i \in lo..(Len(n.kids) + 1), ln \in {0, 5}, bg \in BOOLEAN} ELSE {})
      \cup (IF iter /\ "unk" \in OpKinds
-           THEN {[op |-> "unk", path |-> p, at |-> i, cc |-> ZZZZ, len |-> 3] : i \in lo..(Len(n.kids) + 1)} ELSE {})
+           THEN {[op |-> "unk", path |-> p, at |-> i, cc |-> ZZZZ, len |-> 3, big |-> bg] : i \in lo..(Len(n.kids) + 1), bg \in BOOLEAN} ELSE {})
      \cup (IF "swap" \in OpKinds /\ ~top /\ n.t \in SwapTypes
            THEN {[op |-> "swap", path |-> p, i |-> i, j |-> j] : i \in 1..Len(n.kids), j \in 1..Len(n.kids)} \
                 {x \in {[op |-> "swap", path |-> p, i |-> i, j |-> j] : i \in 1..Len(n.kids), j \in 1..Len(n.kids)} : x.i >= x.j}
